@@ -18,6 +18,7 @@ import (
 	"sync"
 	"time"
 
+	"github.com/pingcap/kvproto/pkg/metapb"
 	"github.com/pingcap/log"
 	"github.com/tikv/pd/pkg/btree"
 	"github.com/tikv/pd/pkg/codec"
@@ -367,7 +368,7 @@ func (o rop) coq() string {
 		return "OOverlaps " + o.R.Coq()
 	case "adjacent":
 		return "OAdjacent " + o.R.Coq()
-	case "counts":
+	case "counts", "deletestore":
 		return fmt.Sprintf("OCounts %d", o.Store)
 	case "global":
 		return "OGlobal"
@@ -619,6 +620,13 @@ func (w *world) exec(o *rop) (obs string) {
 	case "adjacent":
 		p, n := ri.GetAdjacentRegions(o.R.Info())
 		return "RoPair " + c07x.ORef(p) + " " + c07x.ORef(n)
+	case "deletestore":
+		// BasicCluster.DeleteStore removes the record of a store (RemoveTombStoneRecords); the regions' indexes are not its business:
+		// whatever the region cache attributes to the store is still what the cached regions imply.  Observed like `counts`.
+		st := core.NewStoreInfo(&metapb.Store{Id: o.Store})
+		w.cluster().PutStore(st)
+		w.cluster().DeleteStore(st)
+		fallthrough
 	case "counts":
 		s := o.Store
 		return "RoNums " + c07x.Zs([]int64{int64(ri.GetStoreLeaderCount(s)), int64(ri.GetStoreFollowerCount(s)),
@@ -1043,6 +1051,7 @@ func genRI(r *rng.R, a c07x.Alphabet, nmut int, malformed bool) riCase {
 		if d := g.roleFlips(400); d != "" {
 			c.totals = d
 		}
+		g.deleteStorePhase()
 	}
 	// concurrent readers on the final, unchanged region set
 	if d := g.concurrentReaders(60); d != "" {
@@ -1319,6 +1328,49 @@ func tableKeysCase(seed uint64) riCase {
 	g.put(m)
 	g.queries(true)
 	return c
+}
+
+// deleteStorePhase: the record of a store is deleted (as RemoveTombStoneRecords does on the leader) while this member's region cache
+// still has peers on it (a member whose cache lags behind: it missed the moves off that store); afterwards the per-store indexes of
+// that store, a refresh of one of its regions and the move of that region off the store must still be exact.
+func (g *riGen) deleteStorePhase() {
+	x, ok := g.someCached()
+	if !ok || g.dead || len(x.Peers) < 2 || x.Start >= x.End && x.End != "" || x.Leader == 0 {
+		return
+	}
+	st := x.Peers[len(x.Peers)-1].Store
+	g.step(rop{K: "deletestore", Store: st})
+	g.c.tags["phase:delete-store-record"]++
+	g.step(rop{K: "storeregions", Store: st})
+	y := x.Clone() // a statistics-only refresh of a region with a peer on that store
+	y.Size, y.Stamp = x.Size+11, g.nextStamp()
+	g.put(y)
+	g.step(rop{K: "counts", Store: st})
+	z := y.Clone() // the region leaves the store (conf change): its peer there is removed
+	var keep []c07x.Peer
+	for _, p := range z.Peers {
+		if p.Store != st {
+			keep = append(keep, p)
+		}
+	}
+	if len(keep) > 0 && len(keep) < len(z.Peers) {
+		z.Peers, z.Pending = keep, nil
+		lead := false
+		for _, p := range keep {
+			if p.ID == z.Leader {
+				lead = true
+			}
+		}
+		if !lead {
+			z.Leader = keep[0].ID
+			z.Peers[0].Learner = false
+		}
+		z.ConfVer, z.Stamp = y.ConfVer+1, g.nextStamp()
+		g.put(z)
+	}
+	g.step(rop{K: "counts", Store: st})
+	g.step(rop{K: "storeregions", Store: st})
+	g.step(rop{K: "global"})
 }
 
 // mergeSizeCase: the first heartbeats of a merged region report size 0 / 1: a put that swallows its neighbour and carries no
